@@ -29,6 +29,7 @@ def run(prog, chk):
     axis_lines(prog, chk)
     wiring(prog, chk)
     location_choice(prog, chk)
+    all_candidates_measured(prog, chk)
     from props import geomalg
     geomalg.check_sites(prog, chk, "C13")
     geomalg.check(prog, chk, "C13", floor=30)
@@ -279,3 +280,38 @@ def wiring(prog, chk):
     want = {"h": "Horizontal", "horizontal": "Horizontal", "v": "Vertical", "vertical": "Vertical", "corner": "Corner", "straight": "Straight"}
     ok = all(tbl.get(k) == v for k, v in want.items() if k in tbl) and {"h", "v"} <= set(tbl)
     chk.ob(ok, "A15.edge-type-words", "ConnectionType::from_str", ct.where(), f"edge-type words select the like-named connection type ({tbl})", f"edge-type words map to {tbl}")
+
+
+def all_candidates_measured(prog, chk):
+    """minimal distance over *all* candidate locations: in shortest_link / closest_loc every pass of the candidate loops
+    measures its candidate (no pass returns to the loop head without the locspec() lookups and the comparison)"""
+    n = 0
+    for fn in ("svgdx::connector::shortest_link", "svgdx::connector::closest_loc"):
+        b = prog.body(fn)
+        chk.touch(b)
+        locs = {bb for (bb, t, c) in b.call_sites(R.path_endswith("BoundingBox::locspec"))}
+        if not locs:
+            chk.anchor_missing("A13.all-candidates", f"{fn}: no locspec() lookup found")
+            continue
+        lp = R.loop_containing(b, next(iter(locs)))
+        if lp is None:
+            chk.anchor_missing("A13.all-candidates", f"{fn}: the candidate lookups are not inside a loop")
+            continue
+        h, blocks = lp
+        # the `Some(candidate)` edge of the innermost loop's iterator
+        nxt = [(bb, t) for (bb, t, c) in b.call_sites(lambda c: c.decl_path == "std::iter::Iterator::next") if bb in blocks]
+        starts = []
+        for (bb, t) in nxt:
+            sw = R.find_switch_on_discr(b, t["t"], t["dest"][0])
+            if sw and R.loop_containing(b, bb) == lp:
+                starts += [tgt for v, tgt in sw[1]["vals"] if v == 1]
+        if not starts:
+            chk.anchor_missing("A13.all-candidates", f"{fn}: iterator of the candidate loop not found")
+            continue
+        n += 1
+        # comparison: the `dist < min` test must also be on every pass
+        cmps = {bb for bb in blocks for st in b.stmts(bb) if "rv" in st and st["rv"].get("k") == "binop" and st["rv"].get("op") in ("Lt", "Le", "Gt", "Ge") and st["rv"].get("aty") == "f32"}
+        skip_lookup = h in b.reach(starts, avoid=locs)
+        skip_cmp = bool(cmps) and h in b.reach(starts, avoid=cmps)
+        chk.ob(not skip_lookup and not skip_cmp and bool(cmps), "A13.all-candidates", fn.split("::")[-1], b.where(h), f"{fn.split('::')[-1]}: every candidate (pair) is looked up and compared with the running minimum", f"{fn.split('::')[-1]}: a pass of the candidate loop can return to the loop head without measuring its candidate: some location (pair) is never considered, so the chosen connection is not the one of minimal distance")
+    chk.floor("A13.all-candidates", n, 2, "candidate loop in the connector location search")
